@@ -32,6 +32,9 @@ type C20Case struct {
 	Names  string `json:"names"` // "\x00unset" = variable not set
 	Kind   string `json:"kind"`  // kind of the descriptor the model selects (or of fd 3 when none): unix | tcp | file | pipe
 	Origin string `json:"origin,omitempty"`
+	// BadAddr: the address argument given to Listen when the model selects an inherited socket (it must be
+	// ignored, whatever it is). "" = a valid fallback address is passed.
+	BadAddr string `json:"bad_addr,omitempty"`
 }
 
 const envUnset = "\x00unset"
@@ -188,7 +191,11 @@ func execC20(c C20Case, bound time.Duration) (string, error) {
 			env = append(env, e)
 		}
 	}
-	env = append(env, "VERIF_HELPER=activation", "VERIF_PID_MODE="+c.PID, "VERIF_TOKEN="+token, "VERIF_FALLBACK=unix:"+fallback.addr)
+	fbArg := "unix:" + fallback.addr
+	if c.BadAddr != "" && want >= 0 && (c.Kind == "unix" || c.Kind == "tcp") {
+		fbArg = strings.TrimPrefix(c.BadAddr, "literal:")
+	}
+	env = append(env, "VERIF_HELPER=activation", "VERIF_PID_MODE="+c.PID, "VERIF_TOKEN="+token, "VERIF_FALLBACK="+fbArg)
 	if c.FDS != envUnset {
 		env = append(env, "LISTEN_FDS="+c.FDS)
 	}
@@ -327,7 +334,11 @@ func checkC20(c C20Case, st *Stats) error {
 	default:
 		why = "fallback:names"
 	}
-	st.Case(HashOf(c), nt, func() interface{} { return c }, "verdict:"+verdict, why, "kind:"+c.Kind)
+	labels := []string{"verdict:" + verdict, why, "kind:" + c.Kind}
+	if c.BadAddr != "" {
+		labels = append(labels, "address-argument:refusable")
+	}
+	st.Case(HashOf(c), nt, func() interface{} { return c }, labels...)
 	return err
 }
 
@@ -431,6 +442,18 @@ func TestC20Product(t *testing.T) {
 				for _, kind := range []string{"unix", "tcp", "file", "pipe"} {
 					cases = append(cases, C20Case{PID: pid, FDS: fds, Names: c20Names(nv, n), Kind: kind, Origin: "product"})
 				}
+			}
+		}
+	}
+	// where an inherited socket is selected the address argument must be ignored - also one that Bind would refuse
+	n0 := len(cases)
+	for i := 0; i < n0; i++ {
+		c := cases[i]
+		if modelActivation(c) >= 0 && (c.Kind == "unix" || c.Kind == "tcp") {
+			for _, bad := range []string{"literal:", "literal:unix:", "literal:nonsense", "literal:udp:127.0.0.1:1"} {
+				c2 := c
+				c2.BadAddr, c2.Origin = bad, "product+bad-address"
+				cases = append(cases, c2)
 			}
 		}
 	}
